@@ -2,6 +2,7 @@ import SspModel.Lemmas.Pk
 import SspModel.Lemmas.Life
 import SspModel.Lemmas.Bridge.Sev
 import SspModel.Model.Sev
+import SspModel.Lemmas.Conserve
 import SspModel.Props.C13
 import SspModel.Props.C12
 /-!
@@ -157,6 +158,75 @@ theorem turnoff_bin_contains_mto (a0 a1 a2 t lo hi : ℝ) (h0 : 0 < a0) (h1 : 0 
       rw [hinv] at this
       linarith
 
+/-! ## along an exact solution -/
+
+/-- the only two non-zero entries of the number part of the derivative -/
+noncomputable def numberRate (o : SevOut ℝ) : ℝ := o.dNs + (match o.rem with | some (_, _, dN, _) => dN | none => 0)
+/-- rate of the total mass: the leaving stars carry the turn-off mass, the remnants arrive with the IFMR mass -/
+noncomputable def massRate (c : SevCfg ℝ) (t : ℝ) (o : SevOut ℝ) : ℝ :=
+  mtoFin c.a0 c.a1 c.a2 t * o.dNs + (match o.rem with | some (_, _, _, dM) => dM | none => 0)
+
+theorem numberRate_zero (c : SevCfg ℝ) (t : ℝ) (o : SevOut ℝ) (hs : SevSpec c t o) (hfull : ∀ cls, c.frem cls = 1)
+    (hpos : 0 < predict c.ifmr (mtoFin c.a0 c.a1 c.a2 t)) : numberRate o = 0 := by
+  unfold numberRate
+  cases hr : o.rem with
+  | none =>
+    rcases hs.skipped hr with h | h
+    · simp [h]
+    · linarith
+  | some v =>
+    obtain ⟨cls, i, dN, dM⟩ := v
+    obtain ⟨_, _, hN, _, _⟩ := hs.balance cls i dN dM hr
+    simp only
+    rw [hN, hfull cls]; ring
+
+theorem massRate_nonpos (c : SevCfg ℝ) (t : ℝ) (o : SevOut ℝ) (hs : SevSpec c t o)
+    (hfrem : ∀ cls, 0 ≤ c.frem cls ∧ c.frem cls ≤ 1) (hm : 0 < mtoFin c.a0 c.a1 c.a2 t)
+    (hle : predict c.ifmr (mtoFin c.a0 c.a1 c.a2 t) ≤ mtoFin c.a0 c.a1 c.a2 t) : massRate c t o ≤ 0 := by
+  unfold massRate
+  cases hr : o.rem with
+  | none =>
+    have := hs.nonpos
+    simp only [add_zero]
+    nlinarith
+  | some v =>
+    obtain ⟨cls, i, dN, dM⟩ := v
+    have := (sev_conservation c t o hs hfrem hle cls i dN dM hr).2.2.2.2
+    simp only
+    linarith
+
+/-- **objects are conserved** along an exact solution when every class is fully retained (and remnants have mass) -/
+theorem number_conserved (c : SevCfg ℝ) (t0 t1 : ℝ) (Ntot : ℝ → ℝ) (out : ℝ → SevOut ℝ)
+    (hspec : ∀ t ∈ Set.Icc t0 t1, SevSpec c t (out t)) (hfull : ∀ cls, c.frem cls = 1)
+    (hpos : ∀ t ∈ Set.Icc t0 t1, 0 < predict c.ifmr (mtoFin c.a0 c.a1 c.a2 t))
+    (hrate : ∀ t ∈ Set.Icc t0 t1, HasDerivAt Ntot (numberRate (out t)) t) :
+    ∀ t ∈ Set.Icc t0 t1, Ntot t = Ntot t0 := by
+  apply Conserve.const_of_rate_zero
+  intro t ht
+  have := hrate t ht
+  rwa [numberRate_zero c t (out t) (hspec t ht) hfull (hpos t ht)] at this
+
+/-- **per-bin star counts never grow** along an exact solution -/
+theorem stars_never_grow (c : SevCfg ℝ) (t0 t1 : ℝ) (Nj : ℝ → ℝ) (j : Nat) (out : ℝ → SevOut ℝ)
+    (hspec : ∀ t ∈ Set.Icc t0 t1, SevSpec c t (out t))
+    (hrate : ∀ t ∈ Set.Icc t0 t1, HasDerivAt Nj (if (out t).isev = some j then (out t).dNs else 0) t) :
+    AntitoneOn Nj (Set.Icc t0 t1) := by
+  apply Conserve.antitone_of_rate_nonpos Nj _ t0 t1 hrate
+  intro t ht
+  split
+  · exact (hspec t ht).nonpos
+  · exact le_rfl
+
+/-- **the total mass never increases** along an exact solution -/
+theorem mass_never_gained (c : SevCfg ℝ) (t0 t1 : ℝ) (Mtot : ℝ → ℝ) (out : ℝ → SevOut ℝ)
+    (hspec : ∀ t ∈ Set.Icc t0 t1, SevSpec c t (out t)) (hfrem : ∀ cls, 0 ≤ c.frem cls ∧ c.frem cls ≤ 1)
+    (hm : ∀ t ∈ Set.Icc t0 t1, 0 < mtoFin c.a0 c.a1 c.a2 t)
+    (hle : ∀ t ∈ Set.Icc t0 t1, predict c.ifmr (mtoFin c.a0 c.a1 c.a2 t) ≤ mtoFin c.a0 c.a1 c.a2 t)
+    (hrate : ∀ t ∈ Set.Icc t0 t1, HasDerivAt Mtot (massRate c t (out t)) t) :
+    AntitoneOn Mtot (Set.Icc t0 t1) :=
+  Conserve.antitone_of_rate_nonpos Mtot _ t0 t1 hrate
+    (fun t ht => massRate_nonpos c t (out t) (hspec t ht) hfrem (hm t ht) (hle t ht))
+
 structure Statement : Prop where
   spec : ∀ (c : SevCfg ℝ) (t : ℝ) (Ns alpha : List ℝ) (o : SevOut ℝ), 0 ≤ c.nmin →
     (c.a0 < t → 0 < mtoFin c.a0 c.a1 c.a2 t) → (∀ x, c.tmsU.getLast? = some x → c.a0 ≤ x) →
@@ -169,15 +239,32 @@ structure Statement : Prop where
       0 ≤ dMr ∧ dMr ≤ mtoFin c.a0 c.a1 c.a2 t * (-o.dNs)
   contains : ∀ a0 a1 a2 t lo hi : ℝ, 0 < a0 → 0 < a1 → a2 < 0 → a0 < t → 0 < lo → 0 < hi →
     tms a0 a1 a2 hi < t → ¬ tms a0 a1 a2 lo < t → lo ≤ mtoFin a0 a1 a2 t ∧ mtoFin a0 a1 a2 t < hi
+  /-- trajectory corollaries, for exact solutions of the ODE -/
+  conserved : ∀ (c : SevCfg ℝ) (t0 t1 : ℝ) (Ntot : ℝ → ℝ) (out : ℝ → SevOut ℝ),
+    (∀ t ∈ Set.Icc t0 t1, SevSpec c t (out t)) → (∀ cls, c.frem cls = 1) →
+    (∀ t ∈ Set.Icc t0 t1, 0 < predict c.ifmr (mtoFin c.a0 c.a1 c.a2 t)) →
+    (∀ t ∈ Set.Icc t0 t1, HasDerivAt Ntot (numberRate (out t)) t) → ∀ t ∈ Set.Icc t0 t1, Ntot t = Ntot t0
+  never_grow : ∀ (c : SevCfg ℝ) (t0 t1 : ℝ) (Nj : ℝ → ℝ) (j : Nat) (out : ℝ → SevOut ℝ),
+    (∀ t ∈ Set.Icc t0 t1, SevSpec c t (out t)) →
+    (∀ t ∈ Set.Icc t0 t1, HasDerivAt Nj (if (out t).isev = some j then (out t).dNs else 0) t) → AntitoneOn Nj (Set.Icc t0 t1)
+  mass : ∀ (c : SevCfg ℝ) (t0 t1 : ℝ) (Mtot : ℝ → ℝ) (out : ℝ → SevOut ℝ),
+    (∀ t ∈ Set.Icc t0 t1, SevSpec c t (out t)) → (∀ cls, 0 ≤ c.frem cls ∧ c.frem cls ≤ 1) →
+    (∀ t ∈ Set.Icc t0 t1, 0 < mtoFin c.a0 c.a1 c.a2 t) →
+    (∀ t ∈ Set.Icc t0 t1, predict c.ifmr (mtoFin c.a0 c.a1 c.a2 t) ≤ mtoFin c.a0 c.a1 c.a2 t) →
+    (∀ t ∈ Set.Icc t0 t1, HasDerivAt Mtot (massRate c t (out t)) t) → AntitoneOn Mtot (Set.Icc t0 t1)
   /-- the sweep speed in the flux is the source's expression -/
   speed : ∀ a0 a1 a2 t : ℝ, Generated.dmdt_sev a0 a1 a2 t = dmdtAbs a0 a1 a2 t
 
-/-- **C02 (partial)**: instantaneous statements. The trajectory corollaries (total number constant, total mass
-    non-increasing along a solution) follow for exact solutions by `Lemmas/Conserve.total_const`; dopri5 is outside Lean. -/
+/-- **C02 (partial)**: instantaneous statements and their trajectory corollaries for *exact* solutions (objects conserved, star bins
+    never grow, total mass never gained; that the stars' mass changes at `m_to·dNs` is `C01.star_mass_rate`). dopri5 is outside Lean:
+    the same clauses are observed on its output rows. -/
 theorem C02_partial : Statement where
   spec := fun c t Ns alpha o hn hm hl h => sev_spec c t Ns alpha o hn hm hl h
   conservation := sev_conservation
   contains := turnoff_bin_contains_mto
+  conserved := number_conserved
+  never_grow := stars_never_grow
+  mass := mass_never_gained
   speed := Bridge.gen_dmdt_sev
 
 end Model.C02
